@@ -40,6 +40,7 @@ def r03_1_2(ctx, run, rule1='R03.1', rule2='R03.2'):
     plain = IntervalSet([])
     escaped = IntervalSet([])
     arms = 0
+    table_driven = False
     loc = f'{b.file}:{b.line}'
     flush_problems = []
     string_problems = []
@@ -54,6 +55,33 @@ def r03_1_2(ctx, run, rule1='R03.1', rule2='R03.2'):
                 continue
             pf = PathFacts(p.conds)
             rng = pf.range_of(atom).intersect(IntervalSet([(0, 255)]))
+            # a classification through a constant 256-entry table (`CLASS[b as usize] == k`): the bytes whose table entry satisfies the condition
+            for c in p.conds:
+                t_ = deref_all(c[0])
+                if t_[0] == 'bin' and t_[1] in ('Eq', 'Ne') and isinstance(c[2], bool) and any(const_of(x_) is not None for x_ in (t_[2], t_[3])):
+                    # `TABLE[b] == k` written as a comparison: rewrite as the switch form
+                    kc_ = const_of(t_[3]) if const_of(t_[3]) is not None else const_of(t_[2])
+                    oth_ = t_[2] if const_of(t_[3]) is not None else t_[3]
+                    holds_ = (t_[1] == 'Eq') == c[2]
+                    c = (oth_, 'eq' if holds_ else 'ne', kc_ if holds_ else (kc_,))
+                    t_ = deref_all(oth_)
+                while t_[0] == 'cast' and len(t_) > 2:
+                    t_ = deref_all(t_[2])
+                def _nv(x_):
+                    for _ in range(6):
+                        x_ = strip_casts(deref_all(x_))
+                    return x_
+                if t_[0] == 'index' and _nv(t_[2]) == _nv(atom):
+                    tv = const_of(deref_all(t_[1]))
+                    if isinstance(tv, tuple) and len(tv) == 256 and all(isinstance(x_, int) for x_ in tv):
+                        table_driven = True
+                        if c[1] == 'eq' and isinstance(c[2], int) and not isinstance(c[2], bool):
+                            sel = [i_ for i_, x_ in enumerate(tv) if x_ == c[2]]
+                        elif c[1] == 'ne' and isinstance(c[2], tuple):
+                            sel = [i_ for i_, x_ in enumerate(tv) if x_ not in c[2]]
+                        else:
+                            continue
+                        rng = rng.intersect(IntervalSet([(i_, i_) for i_ in sel]) if sel else IntervalSet([]))
             if rng.empty():
                 continue
             ps = pushed(p)
@@ -70,6 +98,14 @@ def r03_1_2(ctx, run, rule1='R03.1', rule2='R03.2'):
                 return False
             flushes = [x for x in ps if x[0] == 'str' and from_input(x[1])]
             escapes = [x for x in ps if x not in flushes]
+            # the escape written by a crate-local helper that receives the output string (`push_escape(byte, class, json)`)
+            via_helper = [e for e in p.calls() if isinstance(e[5], dict) and e[5].get('callee', {}).get('resolved_local') and
+                          any(a.get('k') in ('copy', 'move') and 'String' in str(b.local_ty(a['place']['local']).get('s', '')) for a in e[5].get('args', []))]
+            if not escapes and via_helper:
+                arms += 1
+                escaped = escaped.union(rng)
+                string_unknown.append(f'bytes {rng}: the escape is written by {canon(via_helper[0][1]).split("::")[-1]}(), which this rule does not read')
+                continue
             if not escapes:
                 plain = plain.union(rng)
                 if flushes:
@@ -151,7 +187,13 @@ def r03_1_2(ctx, run, rule1='R03.1', rule2='R03.2'):
         if not any(fl):
             flush_problems.append(f'for bytes {k} the pending run of ordinary bytes is never written before the escape')
     missing = MANDATORY.intersect(plain)
-    if missing.empty() and not escaped.empty():
+    # bytes are looked at through something this rule does not read (a wrapper method, a helper): the per-byte paths were not recognised
+    helper_read = any(c_.get('resolved_local') and canon(callee_name(t_)).split('::')[-1] not in ('escape_scalar_string',)
+                      for _, t_ in b.calls() for c_ in [t_.get('callee', {})])
+    if ((not missing.empty() and (escaped.empty() or helper_read)) or (escaped.empty() and plain.empty())) and not table_driven:
+        run.undecided(rule1, b.path, 'coverage', 'the per-byte classification of this function was not read (bytes are fetched or classified through a crate-local helper / wrapper): '
+                      'which bytes take an escape arm is not decided', loc)
+    elif missing.empty() and not escaped.empty():
         run.proved(rule1, b.path, 'coverage', f'all 34 bytes RFC 8259 requires to be escaped (0x00-0x1F, 0x22, 0x5C) take an escape arm; escaped set = {escaped}', loc)
     else:
         run.violation(rule1, b.path, 'coverage', f'bytes {missing if not missing.empty() else MANDATORY} are copied to the output unescaped: RFC 8259 §7 requires them to be escaped, a strict parser rejects the text', loc)
